@@ -74,9 +74,9 @@ CHECKS["C02"] = ("E2-sim",
   "F < limit=3, Ti > Ta,Tn. Placement enumeration is exhaustive only for F=1 (and the stated subset for F=2).",
   "DESIGN.md §5 C02")
 CHECKS["C03"] = ("E2-sim",
-  "exhaustive blackout-from-every-ordinal and kind-selective silence over a configuration grid + proptest combinations; bounded-time oracle on the virtual clock with a liveness probe and a post-run health check",
+  "exhaustive blackout-from-every-ordinal and kind-selective silence over a configuration grid + proptest combinations and a chaos family (user requests + faults), the latter also coverage-guided by libFuzzer over a scenario choice tape in the thorough tier; bounded-time oracle on the virtual clock with a liveness probe, a busy-loop detector hook and a post-run health check",
   "For both modes x closure x NAK procedures x handler sets x sizes: blackout of either/both directions from every datagram ordinal, a peer that never passes one PDU kind (or a pair), "
-  "and sampled blackout+fault+cancel combinations. Every transaction instance seen at an entity must stop answering Report primitives by (last stimulus + B), "
+  "sampled blackout+fault+cancel combinations, and a chaos family (general scenario generator + up to 3 cancel / suspend+resume / prompt / report requests + blackout; thorough: also the sim_chaos libFuzzer target, 60k scenarios). Every transaction instance seen at an entity must stop answering Report primitives by (last stimulus + B), "
   "B = L*(Ti+Tn+2Ta)+NAK delay+exchange+5 s, no PDU flood, and afterwards each daemon must complete a fresh Put on the healed link.",
   "Liveness is decided as bounded-time safety with a generous bound under virtual time; handlers ignore/suspend excluded as the statement says.",
   "DESIGN.md §5 C03")
@@ -128,10 +128,10 @@ CHECKS["C20"] = ("E2-sim",
   "Window: events up to 2 ms earlier are surely counted, what may be in the 2-PDU transport pipeline (2 tau + 2 ms) may be. Sampled.",
   "DESIGN.md §5 C20")
 CHECKS["C17"] = ("E3-puppet",
-  "grid enumeration of timeout x limit x handler x answers-before-expiry over 7 fault families with puppet peers (virtual clock); timestamp arithmetic on the trace",
+  "grid enumeration of timeout x limit x handler x answers-before-expiry over 9 fault families with puppet peers (virtual clock); timestamp arithmetic on the trace",
   "Puppet peers make each limit fault happen in isolation: sender ack limit, sender inactivity (with keep-alives shortly before an expiry), receiver ack limit, receiver NAK limit (with partial "
-  "retransmissions shortly before the next round), receiver inactivity (with late segments 1 ms before an expiry), checksum failure, file-size error; timeouts 1..3 s, limits 1..4, handlers absent/cancel/"
-  "suspend/ignore/abandon, deferred/immediate NAK (exhaustive grid, 1200 cases). The first fault must have the expected condition, come L*T after the event that restarted the count (never earlier, not later), "
+  "retransmissions shortly before the next round), receiver inactivity (with late segments 1 ms before an expiry), checksum failure, file-size error, and sender/receiver ack limit with a user suspension of 0.4..5.1 periods while waiting (suspended time must not count, every expiry still retransmits); timeouts 1..3 s, limits 1..4, handlers absent/cancel/"
+  "suspend/ignore/abandon, deferred/immediate NAK (exhaustive grid, 2352 cases). The first fault must have the expected condition, come L*T after the event that restarted the count (never earlier, not later), "
   "with exactly L transmissions of EOF/Finished (resp. L NAK rounds) before it, and the configured action must follow.",
   "Tolerance 3 tau + 6 ms. With Ignore only the absence of cancel/abandon/suspend/termination is required.",
   "DESIGN.md §5 C17")
@@ -153,8 +153,8 @@ CHECKS["C04"] = ("E3-puppet + E2-sim",
   "DESIGN.md §5 C04")
 CHECKS["C11"] = ("E2-sim",
   "seeded generation of multi-daemon, multi-transaction scenarios with random link faults, injected stray PDUs and replays on the real daemons; per-transaction identity oracle + routing + termination + health check",
-  "2-3 real daemons, 2..24 overlapping Puts in any direction and mode with per-transaction tagged contents and destinations, four families (loss-free; + strays; lossy + strays; strays + replay of an ended "
-  "transaction's PDUs). Put ids must be pairwise distinct; every success claim must show that transaction's own content at its own destination (cross-wiring is recognised by the tag); every indication must name a "
+  "2-3 real daemons, 2..24 overlapping Puts in any direction and mode with per-transaction tagged contents and destinations, six families (loss-free; + strays; one lost datagram per directed link, with and without strays, where acknowledged Puts must still succeed; lossy + strays; strays + replay/reflection of an ended "
+  "transaction's PDUs); in half of the scenarios all daemons number their transactions from the same value. Put ids must be pairwise distinct; every success claim must show that transaction's own content at its own destination (cross-wiring is recognised by the tag); every indication must name a "
   "transaction that exists at that entity; loss-free: every Put succeeds despite the strays; always: every transaction, including those started by strays, is gone at the end, no daemon stopped, and every daemon "
   "completes a fresh Put afterwards.",
   "Single-threaded deterministic scheduler (message orderings, seeded select! branches), not preemptive interleavings. Sampled: thousands of scenarios per run.",
@@ -196,7 +196,7 @@ def main():
         "engines": [
             {"name": "E1-pure", "path": "/verif/harness/src/props", "serves_properties": ["C05","C06","C09","C12","C13","C14","C15"], "kind_free_text": "proptest strategies + bounded-exhaustive enumerators over public pure functions, oracle = reference model / inverse / metamorphic relation"},
             {"name": "E2-sim", "path": "/verif/harness/src/sim", "serves_properties": ["C01","C02","C03","C04","C07","C08","C10","C11","C13","C17","C18","C19","C20"], "kind_free_text": "the real Daemon(s) on a paused-clock single-thread tokio runtime over an in-memory fault-injecting link; scenario = config x content x fault script x user commands x injected PDUs; oracle = invariants over the recorded trace"},
-            {"name": "E4-fuzz", "path": "/verif/fuzz", "serves_properties": ["C05","C06","C15"], "kind_free_text": "cargo-fuzz/libFuzzer targets with the semantic oracle inside the target"},
+            {"name": "E4-fuzz", "path": "/verif/fuzz", "serves_properties": ["C03","C05","C06","C15"], "kind_free_text": "cargo-fuzz/libFuzzer targets (decode, roundtrip, crc_flip, sim_chaos) with the semantic oracle inside the target; run by the thorough tier with fixed -runs and -seed=VERIF_SEED"},
             {"name": "E5-udp", "path": "/verif/harness/src/props/c16.rs", "serves_properties": ["C16"], "kind_free_text": "real UdpTransport on loopback, differential against decoding the datagram's own bytes"},
         ],
         "checks": checks,
